@@ -469,15 +469,24 @@ def workload(ctx):
                       for b in rng.sample(bl, min(len(bl), rng.randint(2, 4)))}
             else:
                 Mr = rand_mv(rng, n, False, nterms=min(2 ** n, rng.randint(2, 4)))
+            Mr = {k_: F(v_) for k_, v_ in Mr.items()}     # exact: int / int would round
             if Mr:
                 ctx.case(("anyinv", g, normal.typed_key(tuple(sorted(Mr.items())))), len(Mr) >= 2, n=0)
                 ctx.run("C18.anyinv", (g, Mr))
         A2, B2 = rand_mv(rng, n, False), rand_mv(rng, n, False)
         ctx.case(("eqhash", g, normal.typed_key((A2, B2))), True, n=0)
         ctx.run("C18.eqhash", (g, A2, B2))
+        if n >= 4:      # DENSE multivectors: 9 .. 2**n terms, inserted in different orders
+            A3 = rand_mv(rng, n, False, nterms=rng.randint(9, 2 ** n))
+            B3 = rand_mv(rng, n, False, nterms=rng.randint(9, 2 ** n))
+            ctx.case(("eqhash-dense", g, normal.typed_key((A3, B3))), True, n=0)
+            ctx.count("dense_multivectors")
+            ctx.run("C18.eqhash", (g, A3, B3))
+            ctx.run("C18.anyinv", (g, {k_: F(v_) for k_, v_ in A3.items()}))
     ctx.floor("blade_products", 50000)
     ctx.floor("triples", 20000)
     ctx.floor("inv_checked", 500)
+    ctx.floor("dense_multivectors", 50)
     ctx.floor("general_inverse_returned", 100)
     ctx.floor("general_inverse_refused", 100)
     ctx.floor("inv_null_refused", 200)
